@@ -8,6 +8,8 @@ from maps_common import *
 
 def krow(seed, b, x):
     r = random.Random(seed * 1000003 + b * 131 + x)
+    if seed >= 100:      # "strong field" seeds: some rows of the later bunches are displaced by half a grid or more (their source lies off the grid: the zero-weight branch of updateSM)
+        return r.choice([-2, -1, 0, 1, 2] + ([9, -9, 7, -8] if b >= 1 else []))
     return r.choice([-2, -1, -1, 0, 0, 1, 1, 2])
 
 def sym_data(ex, st, roots, B, n, tag='d', only=None):
@@ -47,30 +49,33 @@ def job_generic_kick(res, n, B, it, axis, seed, before=None):
         st = pre[0]
     sts = run_paths(ex, st, 'e_km_swap_apply', [rB[km], rB[off]])
     account(res, ex, mod, sts)
-    if len(sts) != 1: raise Unsupported('expected a single path, got %d' % len(sts))
-    outB = out_cells(ex, sts[0], rB, B * n * n); pcB = sts[0].pc
-    for b in range(B):
-        ex1 = Exec(mod, snap1, RealDom()); s1 = State(); s1.pc = list(st.pc[:0]); s1.ranges = dict(st.ranges)
-        install_data(ex1, s1, r1, D[b])
-        for x in range(n): s1.sym[r1[off + '_data'] + 4 * x] = (4, 'f', OFF[(b, x)])
-        s1.pc = [c for c in pcB]
-        ss = run_paths(ex1, s1, 'e_km_swap_apply', [r1[km], r1[off]]); account(res, ex1, mod, ss)
-        if len(ss) != 1: raise Unsupported('expected a single path (single bunch), got %d' % len(ss))
-        out1 = out_cells(ex1, ss[0], r1, n * n)
-        diffs = [outB[b * n * n + i] != out1[i] for i in range(n * n)]
-        def cex(m, b=b):
-            c = cex_common(m, D, B, n)
-            c.update({'replay': 'kick', 'n': n, 'nb': B, 'it': it, 'axis': axis, 'bunch': b, 'before': before,
-                      'off': [mval(m, OFF[(bb, x)]) for bb in range(B) for x in range(n)]})
-            return c
-        prove(res, 'generic %s-kick n=%d B=%d it=%d%s: bunch %d of the train == single-bunch run on its own data and displacement (all %d cells)' % ('y' if axis else 'x', n, B, it, ' after a step of %s in the same process' % before if before else '', b, n * n),
-              ss[0].pc, z3.Or(*diffs), key='kick-%s-multibunch' % ('y' if axis else 'x'), cex_fn=cex)
-        # dependence witness: a cell of bunch b depends on its own fraction symbol
-        if it >= 2:
-            fb = F[(b if axis else 0, n // 2)]
-            row = [outB[b * n * n + ((n // 2) * n + y if axis else y * n + n // 2)] for y in range(n)]
-            f2 = z3.Real('f_alt'); alt = [z3.substitute(c, (fb, f2)) for c in row]
-            witness(res, 'bunch %d output depends on its own displacement (n=%d it=%d axis=%d)' % (b, n, it, axis), list(ss[0].pc) + [f2 >= 0, f2 < 1], z3.Or(*[a != c for a, c in zip(alt, row)]))
+    for sB in sts:      # (a map that decides on the displacement - rows pushed off the grid - forks: every path is compared)
+      outB = out_cells(ex, sB, rB, B * n * n); pcB = sB.pc
+      for b in range(B):
+          ex1 = Exec(mod, snap1, RealDom()); s1 = State(); s1.pc = list(st.pc[:0]); s1.ranges = dict(st.ranges)
+          install_data(ex1, s1, r1, D[b])
+          for x in range(n): s1.sym[r1[off + '_data'] + 4 * x] = (4, 'f', OFF[(b, x)])
+          s1.pc = [c for c in pcB]
+          ss = run_paths(ex1, s1, 'e_km_swap_apply', [r1[km], r1[off]]); account(res, ex1, mod, ss)
+          compat = [x for x in ss]
+          if not compat: raise Unsupported('single-bunch run has no path')
+          out1 = out_cells(ex1, compat[0], r1, n * n)
+          if len(compat) != 1: raise Unsupported('single-bunch run forks under the train\'s path condition (%d paths)' % len(compat))
+          diffs = [outB[b * n * n + i] != out1[i] for i in range(n * n)]
+          def cex(m, b=b):
+              c = cex_common(m, D, B, n)
+              c.update({'replay': 'kick', 'n': n, 'nb': B, 'it': it, 'axis': axis, 'bunch': b, 'before': before,
+                        'off': [mval(m, OFF[(bb, x)]) for bb in range(B) for x in range(n)]})
+              return c
+          prove(res, 'generic %s-kick n=%d B=%d it=%d%s: bunch %d of the train == single-bunch run on its own data and displacement (all %d cells)' % ('y' if axis else 'x', n, B, it, ' after a step of %s in the same process' % before if before else '', b, n * n),
+                ss[0].pc, z3.Or(*diffs), key='kick-%s-multibunch' % ('y' if axis else 'x'), cex_fn=cex)
+          # dependence witness: a cell of bunch b depends on its own fraction symbol
+          if it >= 2:
+              xr = next((x for x in (n // 2, n // 2 - 1, n // 2 + 1, 1, n - 2) if abs(krow(seed, b if axis else 0, x)) <= 2), n // 2)      # a row whose source lies on the grid
+              fb = F[(b if axis else 0, xr)]
+              row = [outB[b * n * n + (xr * n + y if axis else y * n + xr)] for y in range(n)]
+              f2 = z3.Real('f_alt'); alt = [z3.substitute(c, (fb, f2)) for c in row]
+              witness(res, 'bunch %d output depends on its own displacement (n=%d it=%d axis=%d)' % (b, n, it, axis), list(ss[0].pc) + [f2 >= 0, f2 < 1], z3.Or(*[a != c for a, c in zip(alt, row)]))
 
 def job_fixed_map(res, what, n, B, it, dt, fptype, before=None):
     """maps whose displacement field / operator is computed by the real constructor (native, in the snapshot): RF (both models), drift,
@@ -166,10 +171,10 @@ def main(tier):
     chk = Check('C08', tier, '4/C08')
     bld = maps_build()
     if tier == 'quick':
-        kicks = [(8, 2, 4, 1, 1), (6, 3, 3, 1, 2), (6, 2, 2, 1, 3), (8, 2, 4, 0, 4), (6, 3, 2, 0, 5)]
+        kicks = [(8, 2, 4, 1, 1), (6, 3, 3, 1, 2), (6, 2, 2, 1, 3), (8, 2, 4, 0, 4), (6, 3, 2, 0, 5), (6, 2, 3, 1, 101), (8, 3, 4, 1, 102)]
         fixed = [(w, 8, 2, 4, 3, 3) for w in ('rflin', 'rfsin', 'drift', 'fpm', 'idm')] + [('rflin', 6, 3, 3, 3, 3), ('rfsin', 6, 3, 2, 3, 3), ('drift', 6, 3, 3, 3, 3), ('fpm', 6, 3, 2, 4, 3), ('fpm', 8, 2, 4, 4, 1)]
     else:
-        kicks = [(n, B, it, ax, s) for n in (6, 8, 9) for B in (2, 3) for it in (1, 2, 3, 4) for ax in (0, 1) for s in (1, 2)]
+        kicks = [(n, B, it, ax, s) for n in (6, 8, 9) for B in (2, 3) for it in (1, 2, 3, 4) for ax in (0, 1) for s in (1, 2)] + [(n, B, it, 1, s) for n in (6, 8) for B in (2, 3) for it in (2, 4) for s in (101, 102, 103)]
         fixed = [(w, n, B, it, 3, 3) for w in ('rflin', 'rfsin', 'drift', 'idm') for n in (6, 8, 9) for B in (2, 3) for it in (2, 3, 4)]
         fixed += [('fpm', n, B, 4, dt, ft) for n in (8, 9) for B in (2, 3) for dt in (3, 4) for ft in (0, 1, 2, 3)]
     jobs = [(job_generic_kick, a) for a in kicks] + [(job_fixed_map, a) for a in fixed]
@@ -178,8 +183,10 @@ def main(tier):
     jobs += [(job_fixed_map, (w, hn, hB, hit, 3, 3, b4)) for w, b4 in (('rflin', 'kmy'), ('rfsin', 'kmy'), ('drift', 'kmy'), ('fpm', 'kmy'), ('drift', 'kmx'), ('fpm', 'rflin'), ('idm', 'kmy'))]
     jobs += [(job_generic_kick, (hn, hB, hit, 1, 6, b4)) for b4 in ('rflin', 'fpm', 'drift')] + [(job_generic_kick, (hn, hB, hit, 0, 7, 'rflin'))]
     jobs += [(job_wake_kick, (6, 16, 7, (1, 0))), (job_wake_kick, (5, 20, 6, (0, 2, 1)))]      # the wake kick map itself (main's WakePotentialMap), bunches of equal charge
+    import c14 as _c14
+    jobs += [(_c14.job_process_state, ())]      # results must not depend on which object of the process came first (function-local / file-scope statics)
     chk.bounds = {'grid n': sorted({a[0] for a in kicks}), 'bunches B': sorted({a[1] for a in kicks}), 'interpolation points': sorted({a[2] for a in kicks}),
-                  'displacement': 'per row k+f, k in [-2,2] fixed per row (seeded), f symbolic real in [0,1)', 'data': 'every cell of every bunch a real symbol in [-1,1]',
+                  'displacement': 'per row k+f, k in [-2,2] fixed per row (seeded; strong-field seeds also +-7..9 cells on bunches >= 1, i.e. off the grid), f symbolic real in [0,1)', 'data': 'every cell of every bunch a real symbol in [-1,1]',
                   'RF/drift/FP parameters': 'the concrete values the harness constructs with (angle 0.1, f_RF 499 MHz, V 1.4 MV, slip {0.11,0.013,0.0017}, e1 0.01)'}
     chk.assumptions = ['floats as exact reals (bunch independence is an algebraic identity; rounding is identical in both runs)',
                        'x-kick (drift): the displacement field is common to all bunches by design; the generic x-kick obligation replicates bunch 0\'s field',
